@@ -7,15 +7,23 @@
        the sequential meaning of the chain ([eval_chain], Model/ChainSpec.v) — which never builds a graph.
        Props/C01.v (chain_lowering_correct) proves (1) = (2) for well-formed chains; evaluating both ties the
        specification itself, not only the lowered graph, to the implementation. *)
-From Eino Require Import Base.Util Model.Graph Model.Chain Model.ChainSpec Model.ChainCompile Model.PregelOpts Model.PregelHyps Model.GraphCmp.
+From Eino Require Import Base.Util Model.Graph Model.Chain Model.ChainSpec Model.ChainCompile Model.PregelOpts Model.PregelHyps Model.GraphCmp Model.RunLimitTable.
 
 (* cc_entry: the public entry point the root was called through: 0 = Invoke, 1 = Stream (output chunks
-   concatenated), 2 = Transform (input cut into one chunk per top-level key, output concatenated).
+   concatenated), 2 = Transform (input cut into one chunk per top-level key, output concatenated), 3 = Collect
+   (the same input stream, the result is a value).
    The superstep rule does not depend on the paradigm, so the observation of every entry point is compared
    with the same model run. *)
 (* cc_rtmax: the call option WithRuntimeMaxSteps n given to the root (0 = none): the model applies it to the
    forest ([with_rtmax], Model/PregelOpts.v: the root's limit is replaced, nested graphs keep theirs). *)
 Record ccase := { cc_case : gcase; cc_entry : N; cc_rtmax : nat }.
+
+(* round 5: the harness hands over ALL the WithRuntimeMaxSteps options of the call, in order (several options and
+   non-positive ones are legal); which of them counts is decided here by [last_positive] of Model/RunLimitTable.v —
+   the function that Proofs/GenAgreeRunLimit.v proves equal to the statements of runner.run regenerated from the
+   source on every run ([gen_run_max_steps_agrees], [runtime_limits_are_gen]). *)
+Definition mk_ccase (c : gcase) (entry : N) (rtopts : list nat) : ccase :=
+  {| cc_case := c; cc_entry := entry; cc_rtmax := last_positive rtopts 0 |}.
 
 Definition eff (c : ccase) : gcase :=
   {| gc_forest := with_rtmax (cc_rtmax c) (gc_forest (cc_case c)); gc_input := gc_input (cc_case c);
